@@ -18,13 +18,20 @@ CMAKE_DEFINES = ["-DHAS_UNISTD=1", "-DHAS_SYSUIO=1", "-DHAS_SYSTIME=1", "-DHAS_S
 SAN = ["-fsanitize=address,undefined", "-fno-sanitize=nonnull-attribute", "-fno-sanitize-recover=all", "-fno-omit-frame-pointer"]
 
 
-def build(repo_copy, workdir, sanitize=True, cc="gcc"):
-    """Returns path of the harness executable."""
+# the tracing configuration of wasi.c (`#if WASI_TRACE_ENABLED` -> every WASI_TRACE((fmt, args…)) becomes a real
+# fprintf(stderr, …) whose arguments are evaluated): part of the real code, built and run next to the default one
+TRACE_DEFINES = ["-DWASI_TRACE_ENABLED=1"]
+
+
+def build(repo_copy, workdir, sanitize=True, cc="gcc", trace=False):
+    """Returns path of the harness executable (trace=True: wasi.c compiled with -DWASI_TRACE_ENABLED=1)."""
     san = SAN if sanitize else []
-    obj = os.path.join(workdir, "wasi_real.o")
-    exe = os.path.join(workdir, "wasi_ops" + ("" if sanitize else "_nosan"))
+    sfx = ("_trace" if trace else "") + ("" if sanitize else "_nosan")
+    obj = os.path.join(workdir, "wasi_real" + sfx + ".o")
+    exe = os.path.join(workdir, "wasi_ops" + sfx)
+    defs = CMAKE_DEFINES + (TRACE_DEFINES if trace else [])
     cmds = [
-        [cc, "-std=gnu90", "-g", "-O1"] + san + CMAKE_DEFINES + ["-c", os.path.join(repo_copy, "wasi", "wasi.c"), "-o", obj],
+        [cc, "-std=gnu90", "-g", "-O1"] + san + defs + ["-c", os.path.join(repo_copy, "wasi", "wasi.c"), "-o", obj],
         [cc, "-std=gnu99", "-g", "-O1"] + san + CMAKE_DEFINES + ["-I", repo_copy, os.path.join(HERE, "wasi_ops.c"), obj,
                                                                     "-o", exe, "-lpthread", "-lm"],
     ]
@@ -64,7 +71,7 @@ def parse_output(text, n):
 
 def run_histories(exe, mode, histories, workdir, timeout=1800, tablecheck=False):
     """Run histories (each in its own forked child) -> list of (lines, endline)."""
-    base = os.path.join(workdir, "run-" + mode)
+    base = os.path.join(workdir, "run-" + mode + ("-trace" if exe.endswith("_trace") else ""))
     os.makedirs(base, exist_ok=True)
     log = os.path.join(base, "san")
     env = dict(os.environ)
